@@ -1403,6 +1403,43 @@ func runC18Histories(c *Ctx) {
 			c.Law(js(r) == want, "C18/history", "add stores the value supplied: nothing an earlier operation left behind comes back", "add use 'official', add extension inside it, delete it, add 'official' again", js(r)+" want "+want)
 		}
 	}
+	// an element whose content also occurs nested inside an earlier sibling: the operation is on the element named
+	{
+		mkRes := func() fhir.Resource {
+			return mustResource(`{"resourceType":"Patient","id":"h6","extension":[{"url":"http://x/outer","extension":[{"url":"http://x/flag","valueString":"x"}]},{"url":"http://x/flag","valueString":"x"},{"url":"http://x/last","valueBoolean":true}]}`)
+		}
+		outer := `{"extension":[{"url":"http://x/flag","valueString":"x"}],"url":"http://x/outer"}`
+		flag, last := `{"url":"http://x/flag","valueString":"x"}`, `{"url":"http://x/last","valueBoolean":true}`
+		wrap := func(exts ...string) string { return `{"extension":[` + strings.Join(exts, ",") + `],"id":"h6","resourceType":"Patient"}` }
+		type tc struct {
+			what string
+			run  func(r fhir.Resource) error
+			want string
+		}
+		repl := ext("http://x/new", "n")
+		newJS := `{"url":"http://x/new","valueString":"n"}`
+		for _, t := range []tc{
+			{"delete Patient.extension[1]", func(r fhir.Resource) error { return patch.Delete(r, "Patient.extension[1]") }, wrap(outer, last)},
+			{"delete Patient.extension.where(url = 'http://x/flag')", func(r fhir.Resource) error { return patch.Delete(r, "Patient.extension.where(url = 'http://x/flag')") }, wrap(outer, last)},
+			{"replace Patient.extension[1]", func(r fhir.Resource) error { return patch.Replace(r, "Patient.extension[1]", repl) }, wrap(outer, newJS, last)},
+			{"replace Patient.extension.where(url = 'http://x/flag')", func(r fhir.Resource) error {
+				return patch.Replace(r, "Patient.extension.where(url = 'http://x/flag')", repl)
+			}, wrap(outer, newJS, last)},
+			{"delete Patient.extension[0].extension[0]", func(r fhir.Resource) error { return patch.Delete(r, "Patient.extension[0].extension[0]") }, wrap(`{"url":"http://x/outer"}`, flag, last)},
+		} {
+			r := mkRes()
+			before := js(r)
+			var err error
+			_, pan, _ := safeErr(func() error { err = t.run(r); return nil })
+			c.Observe("nested twin "+t.what, true)
+			c.Law(!pan, "C18/history", "a patch operation returns", t.what, "panic")
+			if err == nil {
+				c.Law(js(r) == t.want, "C18/wrong-edit", "the operation changes exactly the element the path names, also when an earlier sibling contains an element with the same content", t.what+" on "+before, js(r))
+			} else {
+				c.Law(js(r) == before, "C18/error-modified", "a refused operation leaves the resource as it was", t.what, js(r))
+			}
+		}
+	}
 	// the protos' placeholder enum value is not a code of any value set
 	for _, v := range []string{"invalid-uninitialized", "INVALID_UNINITIALIZED", "invalid_uninitialized"} {
 		p := mustResource(`{"resourceType":"Patient","id":"h4","gender":"male"}`)
